@@ -186,4 +186,37 @@ def run(chk):
         ent = db.get(model, {})
         okm = ent.get('matrices') == model and (short not in panelk.NUM_MODELS or ent.get('matrices_num') == model + '_num')
         chk.ob('R14.7', okm, pyrules.MODELDB, 'db', 'kernel table of ' + model, expected='matrices = %s' % model, got=ent)
+    r14_8(chk)
     chk.explanation = 'relations between extracted kernel polynomials (substitutions, atom maps, permutations, weight vectors)'
+
+
+def r14_8(chk):
+    """R14.5 exchanges the kernel parameters Nxx <-> Nyy; at panel level the exchanged description
+    exchanges the attributes Nxx <-> Nyy (and Nxx_cte <-> Nyy_cte). The two agree only when every
+    call site hands each load attribute to the kernel parameter of the same component."""
+    from .pyflow import bind
+    m = module(PANEL)
+    n = 0
+    for meth in ('calc_k0', 'calc_kG0'):
+        fn = m.method('Panel', meth)
+        defs = pyrules.local_defs(fn)
+        for kname in ('fkG0', 'fkG0y1y2'):
+            for call in pyrules.attr_calls(fn, kname):
+                for model, rel in panelk.MODELS.items():
+                    sig = pyrules.kernel_sig(rel, kname)
+                    mp, probs = bind(call, sig)
+                    got = {}
+                    ok = not probs
+                    for comp in ('Nxx', 'Nyy', 'Nxy'):
+                        a = mp.get(comp)
+                        txt = pyrules.resolve(fn, a, defs) if a is not None else ''
+                        got[comp] = txt
+                        others = [c for c in ('Nxx', 'Nyy', 'Nxy') if c != comp]
+                        if comp not in (txt or '') or any(o in (txt or '') for o in others):
+                            ok = False
+                    n += 1
+                    chk.ob('R14.8', ok, PANEL, 'Panel.' + meth, '%s load components vs %s signature' % (kname, model), line=call.lineno,
+                           expected='parameter Nxx/Nyy/Nxy receives the attribute of the same component', got=got,
+                           detail='; '.join(probs) or ('' if ok else 'a load component reaches the kernel parameter of another component: the x<->y exchanged description is not equivalent'),
+                           sample='Panel.%s -> %s(%s)' % (meth, kname, got))
+    chk.floor('R14.8 load bindings', n, 8)
